@@ -25,6 +25,7 @@ import (
 	"strings"
 	"sync"
 	"sync/atomic"
+	"syscall"
 	"time"
 
 	"github.com/spf13/viper"
@@ -41,8 +42,9 @@ type vRaceEnv struct {
 	rng      uint64
 	yieldOn  int32
 	requests int64
-	rngs     sync.Map // hook point name -> *uint64 generator state
-	longHold int32    // 1: the next core.process.end keeps the core loop busy for 120 ms
+	rngs     sync.Map     // hook point name -> *uint64 generator state
+	longHold int32        // 1: the next core.process.end keeps the core loop busy for 120 ms
+	dirMade  atomic.Value // func(): what to do when START has just made its run directory (stalled-disk workload)
 }
 
 var vRE vRaceEnv
@@ -115,6 +117,12 @@ func vRaceHandlers() *verifHandlers {
 		Point: func(name string) {
 			atomic.AddInt64(e.count(name), 1)
 			if atomic.LoadInt32(&e.yieldOn) == 0 {
+				return
+			}
+			if name == "write.start.dirmade" {
+				if f, _ := e.dirMade.Load().(func()); f != nil {
+					f()
+				}
 				return
 			}
 			if name == "core.process.end" && atomic.CompareAndSwapInt32(&e.longHold, 1, 0) {
@@ -400,6 +408,109 @@ func vRaceSession(k *vCaller, w vRaceWorkload, cycle int, dir string, reconfigur
 	return true
 }
 
+// vRaceStalledDisk: a triangle source with back-to-back 16-sample records on two channels; the LJH2.2 file of chan1 is a FIFO with
+// a 4 KiB pipe that is not read until the end of the run, chan0's file is an ordinary file (it tells how many records were offered).
+func vRaceStalledDisk(k *vCaller, w vRaceWorkload, dir string) {
+	e := &vRE
+	var okay bool
+	var s string
+	if !k.must("ConfigureTriangleSource", &TriangleSourceConfig{Nchan: w.nchan, SampleRate: 200000, Min: 100, Max: 8100}, &okay) {
+		return
+	}
+	src := w.source
+	if !k.must("Start", &src, &okay) {
+		return
+	}
+	nsamp, npre := 16, 4
+	k.must("ConfigurePulseLengths", SizeObject{Nsamp: nsamp, Npre: npre}, &okay)
+	fts := FullTriggerState{ChannelIndices: []int{0, 1}}
+	fts.AutoTrigger = true
+	k.must("ConfigureTriggers", &fts, &okay)
+	var mu sync.Mutex
+	var sink *vPipeSink
+	var fifo string
+	var sinkErr error
+	e.dirMade.Store(func() {
+		mu.Lock()
+		defer mu.Unlock()
+		if sink != nil || sinkErr != nil {
+			return
+		}
+		days, _ := os.ReadDir(dir)
+		for _, d := range days {
+			runs, _ := os.ReadDir(filepath.Join(dir, d.Name()))
+			for _, rd := range runs {
+				if rd.IsDir() && len(rd.Name()) == 4 {
+					fifo = filepath.Join(dir, d.Name(), rd.Name(), fmt.Sprintf("%s_run%s_chan1.ljh", d.Name(), rd.Name()))
+					sink, sinkErr = newPipeSink(fifo)
+					return
+				}
+			}
+		}
+	})
+	defer e.dirMade.Store(func() {})
+	k.must("WriteControl", &WriteControlConfig{Request: "START", Path: dir, WriteLJH22: true}, &okay)
+	mu.Lock()
+	sk, serr := sink, sinkErr
+	mu.Unlock()
+	if sk == nil {
+		k.errs = append(k.errs, fmt.Sprintf("the FIFO for the stalled file could not be planted: %v", serr))
+		k.must("Stop", &s, &okay)
+		return
+	}
+	// offered records are counted in the other channel's file: wait for 4000 of them (the queue holds 1000), at most 20 s
+	other := strings.Replace(fifo, "_chan1.ljh", "_chan0.ljh", 1)
+	recSize := 16 + 2*nsamp
+	hdr := -1
+	offered := func() int {
+		fi, err := os.Stat(other)
+		if err != nil {
+			return 0
+		}
+		if hdr < 0 {
+			b, _ := os.ReadFile(other)
+			if h := strings.Index(string(b), "#End of Header\n"); h >= 0 {
+				hdr = h + len("#End of Header\n")
+			} else {
+				return 0
+			}
+		}
+		return (int(fi.Size()) - hdr) / recSize
+	}
+	for i := 0; i < 400 && offered() < 4000; i++ {
+		time.Sleep(50 * time.Millisecond)
+	}
+	nOffered := offered()
+	k.must("SendAllStatus", &s, &okay)
+	sk.release()
+	time.Sleep(100 * time.Millisecond)
+	k.must("WriteControl", &WriteControlConfig{Request: "STOP"}, &okay)
+	sk.markClosed()
+	<-sk.done
+	k.must("Stop", &s, &okay)
+	got := sk.total()
+	if nOffered >= 4000 {
+		k.c.Cov("stalled_file_records_offered", nOffered)
+		h := strings.Index(string(sk.got), "#End of Header\n")
+		if h >= 0 {
+			kept := (got - h - len("#End of Header\n")) / recSize
+			k.c.Cov("stalled_file_records_kept", kept)
+			if kept < offered() {
+				k.c.Cov("runs_with_records_refused_by_a_full_queue", 1)
+			}
+		}
+	} else {
+		ents, _ := os.ReadDir(filepath.Dir(fifo))
+		var names []string
+		for _, en := range ents {
+			fi, _ := en.Info()
+			names = append(names, fmt.Sprintf("%s:%d", en.Name(), fi.Size()))
+		}
+		k.errs = append(k.errs, fmt.Sprintf("only %d records were offered while the file was stalled (%v, header %d)", nOffered, names, hdr))
+	}
+	syscall.Close(sk.fd)
+}
+
 // ---------------------------------------------------------------- UDP packet sender for the Abaco workload
 
 func vUDPSender(port int, stop chan struct{}, done *sync.WaitGroup) {
@@ -496,6 +607,7 @@ func vRunRace(c *vCase) {
 		{name: "triangle-long-blocks", mode: 'A', source: "TRIANGLESOURCE", nchan: 2},
 		{name: "selfend", mode: 'B', source: "SELFEND", nchan: 3},
 		{name: "erroring-rpc", mode: 'A', source: "ERRORINGSOURCE", nchan: 1},
+		{name: "stalled-disk", mode: 'A', source: "TRIANGLESOURCE", nchan: 2},
 	}
 	w := workloads[c.Idx%len(workloads)]
 	c.Describe("workload=%s seed=%d idx=%d", w.name, c.Seed, c.Idx)
@@ -585,6 +697,12 @@ func vRunRace(c *vCase) {
 			k.call("Stop", &s, &okay)
 			c.Cov("self_terminations_with_racing_requests", 1)
 		}
+	case "stalled-disk":
+		// one channel's LJH file is a FIFO nobody reads for a while: that file's write queue (1000 slots) fills up and
+		// records are offered to a full queue, while the other channel's file is written normally
+		k.client = e.client
+		cycles = 0
+		vRaceStalledDisk(k, w, dir)
 	case "triangle-long-blocks":
 		// 2.2 s blocks: one block crosses two of the 1-second trigger-rate reporting boundaries
 		k.client = e.client
@@ -689,17 +807,17 @@ func init() {
 	vRegister("C17", &vProp{
 		Cases: func(tier string) int {
 			if tier == "thorough" {
-				return 160
+				return 162
 			}
-			return 24
+			return 27
 		},
 		Setup: vRaceSetup,
 		Run:   vRunRace,
 		Meta: vMeta{Level: "exploration",
-			Rule:        "case = one workload (triangle, triangle with 2.2 s blocks, simpulse, abaco over loopback UDP against the real RunRPCServer via one JSON-RPC connection; scripted Lancero card, scripted two-producer Abaco against an in-package SourceControl wired like RunRPCServer) x one yield seed: two start/stop cycles, each with pulse-length change, edge+level+auto triggers on all channels, edge-multi on one channel, group-trigger connections, err->fb coupling and mix changes (Lancero), projectors on two channels, START of LJH2.2+LJH3+OFF writing, state label, comment write/read, two raw-data blocks, SENDALL, PAUSE/UNPAUSE, STOP, while RunClientUpdater publishes and saves the configuration every 30 ms; verifPoint sites yield or sleep pseudo-randomly. The binary is race-instrumented; every DATA RACE report with a repository frame is a violation (de-duplicated by the pair of innermost/outermost repository functions); non-trivial = workload ran without a failed request",
+			Rule:        "case = one workload (triangle, triangle with 2.2 s blocks, simpulse, abaco over loopback UDP, a source whose Start fails, and a triangle source with one output file on a FIFO that is not read until its write queue has refused records, all against the real RunRPCServer via one JSON-RPC connection; scripted Lancero card, scripted two-producer Abaco and a self-ending source against an in-package SourceControl wired like RunRPCServer) x one yield seed: two start/stop cycles, each with pulse-length change, edge+level+auto triggers on all channels, edge-multi on one channel, group-trigger connections, err->fb coupling and mix changes (Lancero; one of them kept waiting 25 read periods by a busy core loop, with a quiet client afterwards), projectors on two channels, START of LJH2.2+LJH3+OFF writing, state label, comment write/read, two raw-data blocks, SENDALL, PAUSE/UNPAUSE, STOP, while RunClientUpdater publishes and saves the configuration every 30 ms; verifPoint sites yield or sleep pseudo-randomly. The binary is race-instrumented; every DATA RACE report with a repository frame is a violation (de-duplicated by the pair of innermost/outermost repository functions); non-trivial = workload ran without a failed request",
 			Assumptions: []string{"only executed accesses are seen; libzmq (cgo) is not instrumented", "single client: one JSON-RPC connection or one calling goroutine"},
 			Guards: map[string]map[string]int{
-				"quick":    {"blocks_processed": 300, "requests_issued": 300, "yields_injected": 500, "output_files_written": 50, "config_saves": 5, "raw_block_requests": 20, "raw_blocks_completed": 20, "workload_triangle": 1, "workload_simpulse": 1, "workload_abaco-udp": 1, "workload_lancero-card": 1, "workload_abaco-scripted": 1, "workload_triangle-long-blocks": 1, "workload_selfend": 1, "workload_erroring-rpc": 1, "self_terminations_with_racing_requests": 6},
+				"quick":    {"blocks_processed": 300, "requests_issued": 300, "yields_injected": 500, "output_files_written": 50, "config_saves": 5, "raw_block_requests": 20, "raw_blocks_completed": 20, "workload_triangle": 1, "workload_simpulse": 1, "workload_abaco-udp": 1, "workload_lancero-card": 1, "workload_abaco-scripted": 1, "workload_triangle-long-blocks": 1, "workload_selfend": 1, "workload_erroring-rpc": 1, "workload_stalled-disk": 1, "runs_with_records_refused_by_a_full_queue": 1, "self_terminations_with_racing_requests": 6},
 				"thorough": {"blocks_processed": 3000, "requests_issued": 3000},
 			}},
 	})
